@@ -166,7 +166,7 @@ Lemma pop_stream_drops_held sid prevlp rest c p :
   streambuf (lgs (pop c)) = [] /\ fwdb (lgs (pop c)) = fwdb (lgs c) /\
   log_prompt (lgs (pop c)) = prevlp.
 Proof.
-  intros Hc Hl Hp Hsb. unfold pop. rewrite Hc, Hl, Hp. cbn. rewrite Hsb.
+  intros Hc Hl Hp Hsb. unfold pop. rewrite Hc. unfold exit_frame. rewrite Hl, Hp. cbn. rewrite Hsb.
   split; [apply skipn_all | split; reflexivity].
 Qed.
 
@@ -176,7 +176,7 @@ Lemma pop_stream_drops_any_held sid prevlp rest c p d f0 :
   ctx c = FStream sid prevlp :: rest -> log_prompt (lgs c) = false -> prompt c = Some (SLit p) ->
   sinv p f0 d (lgs c) -> streambuf (lgs (pop c)) = [].
 Proof.
-  intros Hc Hl Hp [_ I2]. unfold pop. rewrite Hc, Hl, Hp. cbn. rewrite I2.
+  intros Hc Hl Hp [_ I2]. unfold pop. rewrite Hc. unfold exit_frame. rewrite Hl, Hp. cbn. rewrite I2.
   destruct (held_is_prompt_prefix p d) as (k & Hk & ->).
   apply skipn_all2. rewrite firstn_length. lia.
 Qed.
